@@ -408,3 +408,217 @@ def r15_2(ctx, repo):
     if n < 3:
         ctx.error(rule, 'only %d users of compute_individual_parameters '
                   'found (floor 3)' % n)
+
+
+# -----------------------------------------------------------------------------
+# R10.6 — the regimen table covers the simulated time span
+# -----------------------------------------------------------------------------
+SORTERS = ('np.sort', 'sorted', 'np.unique', 'numpy.sort')
+MAXES = ('np.max', 'max', 'np.amax', 'np.nanmax', 'numpy.max')
+
+
+def r10_6(ctx, repo):
+    """Every sample() that appends the dosing regimen asks for the dose
+    events up to the largest simulated time: `get_dosing_regimen(<max of the
+    requested times>)`.  The last element of the time vector is the maximum
+    only after the vector has been sorted."""
+    rule = 'R10.6'
+    n = 0
+    for rel, cls, fn in repo.all_functions([FILE]):
+        if fn.name != 'sample' or repo.is_abstract(fn):
+            continue
+        params = [a.arg for a in fn.args.args]
+        if 'times' not in params:
+            continue
+        calls = [c for c in ast.walk(fn) if isinstance(c, ast.Call)
+                 and U(c.func) == 'self.get_dosing_regimen']
+        if not calls:
+            continue
+        # statements in source order with the names that hold a sorted
+        # version of the time points at each of them
+        time_names = {'times'}
+        sorted_now = set()
+        state_at = {}       # id(stmt) -> frozenset(sorted names)
+        last_def = {}       # name -> [(stmt, value)]
+
+        def visit(stmts):
+            for s in stmts:
+                state_at[id(s)] = (frozenset(sorted_now),
+                                   {k: list(v) for k, v in last_def.items()})
+                if isinstance(s, (ast.If, ast.For, ast.While, ast.Try,
+                                  ast.With)):
+                    visit(s.body)
+                    visit(getattr(s, 'orelse', []))
+                    for h in getattr(s, 'handlers', []):
+                        visit(h.body)
+                    visit(getattr(s, 'finalbody', []))
+                    continue
+                if isinstance(s, ast.Assign) and len(s.targets) == 1 \
+                        and isinstance(s.targets[0], ast.Name):
+                    t, v = s.targets[0].id, s.value
+                    last_def.setdefault(t, []).append((s, v))
+                    reads_time = any(isinstance(x, ast.Name)
+                                     and x.id in time_names
+                                     for x in ast.walk(v))
+                    if isinstance(v, ast.Call) and U(v.func) in SORTERS \
+                            and reads_time:
+                        sorted_now.add(t)
+                        time_names.add(t)
+                    elif isinstance(v, ast.Call) and U(v.func) in (
+                            'np.asarray', 'np.array', 'np.copy',
+                            'list') and v.args and isinstance(
+                            v.args[0], ast.Name) and v.args[0].id in \
+                            time_names:
+                        time_names.add(t)
+                        if v.args[0].id in sorted_now:
+                            sorted_now.add(t)
+                        else:
+                            sorted_now.discard(t)
+                    else:
+                        sorted_now.discard(t)
+                        if reads_time and isinstance(v, ast.Name):
+                            time_names.add(t)
+        visit(fn.body)
+
+        def stmt_of(node):
+            cur = node
+            while cur is not None and not isinstance(cur, ast.stmt):
+                cur = getattr(cur, '_parent', None)
+            return cur
+
+        def classify(e, at, depth=0):
+            """'MAX' | 'LAST-UNSORTED' | None (unknown)"""
+            srt, defs = state_at.get(id(at), (frozenset(), {}))
+            if isinstance(e, ast.Call):
+                f = U(e.func)
+                if f in MAXES and e.args and any(
+                        isinstance(x, ast.Name) and x.id in time_names
+                        for x in ast.walk(e.args[0])):
+                    return 'MAX'
+                if isinstance(e.func, ast.Attribute) and e.func.attr == \
+                        'max' and isinstance(e.func.value, ast.Name) \
+                        and e.func.value.id in time_names:
+                    return 'MAX'
+                if f in ('float', 'int') and e.args:
+                    return classify(e.args[0], at, depth)
+                return None
+            if isinstance(e, ast.Subscript) and isinstance(
+                    e.value, ast.Name) and e.value.id in time_names:
+                idx = e.slice
+                if isinstance(idx, ast.UnaryOp) and isinstance(
+                        idx.op, ast.USub) and isinstance(
+                        idx.operand, ast.Constant) and idx.operand.value == 1:
+                    return 'MAX' if e.value.id in srt else 'LAST-UNSORTED'
+                return None
+            if isinstance(e, ast.Name) and depth < 3:
+                ds = defs.get(e.id)
+                if ds:
+                    s2, v2 = ds[-1]
+                    return classify(v2, s2, depth + 1)
+            return None
+        for c in calls:
+            n += 1
+            construct = '%s.sample' % cls
+            where = repo.loc(c, cls, fn.name)
+            arg = c.args[0] if c.args else None
+            for k in c.keywords:
+                if k.arg == 'final_time':
+                    arg = k.value
+            if arg is None:
+                ctx.violation(
+                    rule, where, construct, 'no final time',
+                    'the regimen table is requested without a final time')
+                continue
+            kind = classify(arg, stmt_of(c))
+            if kind == 'MAX':
+                ctx.ok(rule, where, construct,
+                       'the regimen table is requested up to the largest '
+                       'simulated time')
+            elif kind == 'LAST-UNSORTED':
+                ctx.violation(
+                    rule, where, construct, 'final time of unsorted times',
+                    'the regimen table is requested up to `%s`, the last '
+                    'element of a time vector that has not been sorted at '
+                    'that point: doses the simulation applies after that '
+                    'time are missing from the reported regimen' % U(
+                        arg)[:40])
+            else:
+                ctx.error(rule, '%s: final time `%s` of the regimen table '
+                          'not derived from the simulated times' % (
+                              construct, U(arg)[:40]))
+    if n < 5:
+        ctx.error(rule, 'only %d regimen requests found (floor 5)' % n)
+
+
+# -----------------------------------------------------------------------------
+# R15.5 — the joint posterior table is sized like the columns it receives
+# -----------------------------------------------------------------------------
+def _chain_calls(e):
+    """method calls along an attribute/call/subscript chain -> {text}"""
+    out = set()
+    cur = e
+    while isinstance(cur, (ast.Attribute, ast.Call, ast.Subscript)):
+        if isinstance(cur, ast.Attribute) and isinstance(
+                cur.value, ast.Name) and cur.value.id == 'self':
+            break
+        if isinstance(cur, ast.Call):
+            if isinstance(cur.func, ast.Attribute):
+                out.add('%s(%s)' % (cur.func.attr, ', '.join(
+                    [U(a) for a in cur.args] + ['%s=%s' % (k.arg, U(k.value))
+                                                for k in cur.keywords])))
+            cur = cur.func
+        elif isinstance(cur, ast.Attribute):
+            cur = cur.value
+        else:
+            cur = cur.value
+    return out, cur
+
+
+def r15_5(ctx, repo):
+    """PosteriorPredictiveModel.sample stacks, per parameter, the retained
+    draws of all chains into one column of a (n_chains * n_draws) table.  The
+    number of draws must be counted on the same selection of the dataset as
+    the columns are read from: a column read after `dropna(dim='draw')` has
+    only the retained draws."""
+    rule = 'R15.5'
+    cls = 'PosteriorPredictiveModel'
+    fn = repo.method(cls, 'sample')
+    construct = cls + '.sample'
+    counts, fills = [], []
+    for x in ast.walk(fn):
+        if isinstance(x, ast.Call) and U(x.func) == 'len' and x.args \
+                and isinstance(x.args[0], ast.Attribute) \
+                and x.args[0].attr == 'draw':
+            calls, root = _chain_calls(x.args[0].value)
+            if U(root) == 'self._posterior' or 'posterior' in U(root):
+                counts.append((x, calls))
+        if isinstance(x, ast.Assign) and len(x.targets) == 1 and isinstance(
+                x.targets[0], ast.Subscript) and isinstance(
+                x.targets[0].slice, ast.Tuple):
+            calls, root = _chain_calls(x.value)
+            if 'posterior' in U(root):
+                fills.append((x, calls))
+    if not counts or not fills:
+        ctx.error(rule, '%s: draw count (%d) / column fills (%d) not found'
+                  % (construct, len(counts), len(fills)))
+        return
+    drop = lambda cs: any(c.startswith('dropna(') for c in cs)  # noqa: E731
+    fill_drop = {drop(cs) for _, cs in fills}
+    for node, cs in counts:
+        where = repo.loc(node, cls, fn.name)
+        if fill_drop == {drop(cs)}:
+            ctx.ok(rule, where, construct,
+                   'the draws are counted %s, like the columns that fill '
+                   'the table' % ('after dropna(dim=draw)' if drop(cs)
+                                  else 'on the raw dataset'))
+        else:
+            ctx.violation(
+                rule, where, construct, 'draw count selection',
+                '`%s` counts the draws %s while the parameter columns are '
+                'read %s: for a dataset with NaN-padded draws the table and '
+                'its columns have different lengths' % (
+                    U(node)[:60],
+                    'after dropna' if drop(cs) else 'without dropna',
+                    'after dropna' if True in fill_drop else 'without '
+                    'dropna'))
+    ctx.floor(rule, 1)
